@@ -2,6 +2,7 @@ package value
 
 import (
 	"fmt"
+	"sort"
 
 	"github.com/smarthome-go/homescript/v3/homescript/analyzer/ast"
 	"github.com/smarthome-go/homescript/v3/homescript/errors"
@@ -144,7 +145,15 @@ func deepCastAt(val Value, typ ast.Type, span errors.Span, allowCasts bool, path
 
 			outputFields := make(map[string]*Value)
 
-			for key, field := range objVal.FieldsInternal {
+			// In key order: which offending field a failed cast names must not depend on map iteration order.
+			keys := make([]string, 0, len(objVal.FieldsInternal))
+			for key := range objVal.FieldsInternal {
+				keys = append(keys, key)
+			}
+			sort.Strings(keys)
+
+			for _, key := range keys {
+				field := objVal.FieldsInternal[key]
 				found := false
 				for _, otherField := range objType.ObjFields {
 					if key == otherField.FieldName.Ident() {
